@@ -1109,6 +1109,10 @@ def gen_C12(g, tier):
             lines.append(f"{c} contains seq {sa} {sb}")
             lines.append(f"{c} contains seq p str {hx(ta)} p str {hx(tb)}")
             lines.append(f"{c} contains slice {sa} {sb}")
+            lines.append(f"{c} contains arr {sa} {sb}")
+        lines.append(f"{c} contains arr {sa} p str {hx(sub)}")
+        lines.append(f"{c} contains arr {sa} p str {hx(sub[:-1])}")
+        lines.append(f"{c} contains arr {sa} p str {hx(sub + sub[:1])}")
         gaps = [iupac_char(g, 0)] * n
         for (x, y) in ((ta, gaps), (gaps, ta), (gaps, gaps)):
             sx, sy = offset_slice(g, c, x, r.randrange(0, per + 1)), offset_slice(g, c, y, r.randrange(0, per + 1))
